@@ -152,11 +152,144 @@ Proof.
     + exact ND'.
 Qed.
 
-(* a property dict present in both: the main file overrides the included one key by key *)
+(* a property dict present in both: the included dict without the keys the entry already has,
+   then the entry's own keys *)
 Lemma include_equiv_override d k dp sp :
   dget Z.eqb d k = Some (PVProps dp) ->
-  do_include d [(k, PVProps sp)] = dset Z.eqb d k (PVProps (dupdate pkey_eqb sp dp)).
+  do_include d [(k, PVProps sp)] = dset Z.eqb d k (PVProps (merge_props sp dp)).
 Proof. unfold do_include. simpl. intros ->. reflexivity. Qed.
+(* the merge before the repair *)
+Lemma include_old_override d k dp sp :
+  dget Z.eqb d k = Some (PVProps dp) ->
+  do_include_old d [(k, PVProps sp)] = dset Z.eqb d k (PVProps (dupdate pkey_eqb sp dp)).
+Proof. unfold do_include_old. simpl. intros ->. reflexivity. Qed.
+
+(* --- includes and aliases together: per canonical key (mass, width, P ...) the entry's own value
+   wins over the included file's, whatever spelling either of them uses *)
+Lemma pkey_eqb_eq a b : pkey_eqb a b = true <-> a = b.
+Proof.
+  destruct a, b; simpl; split; intros H; try discriminate; try reflexivity.
+  - apply Z.eqb_eq in H. subst. reflexivity.
+  - injection H as ->. apply Z.eqb_refl.
+Qed.
+Lemma pkey_eqb_refl a : pkey_eqb a a = true.
+Proof. apply pkey_eqb_eq. reflexivity. Qed.
+
+Lemma dget_dset_pkey (d : props) k' v k :
+  dget pkey_eqb (dset pkey_eqb d k' v) k = if pkey_eqb k k' then Some v else dget pkey_eqb d k.
+Proof.
+  induction d as [|[k0 v0] r IH]; simpl.
+  - reflexivity.
+  - destruct (pkey_eqb k' k0) eqn:E0; simpl.
+    + apply pkey_eqb_eq in E0. subst k0. destruct (pkey_eqb k k'); reflexivity.
+    + rewrite IH. destruct (pkey_eqb k k0) eqn:E1; [|reflexivity].
+      destruct (pkey_eqb k k') eqn:E2; [|reflexivity].
+      apply pkey_eqb_eq in E1. apply pkey_eqb_eq in E2. subst k0 k'.
+      rewrite pkey_eqb_refl in E0. discriminate.
+Qed.
+
+Definition key_val (k : pkey) (kv : pkey * Z) : option Z :=
+  if pkey_eqb k (rename_key (fst kv)) then Some (snd kv) else None.
+
+(* rename_params: the LAST entry whose renamed key is k gives the value *)
+Lemma rename_params_last p k :
+  dget pkey_eqb (rename_params p) k = last_some (key_val k) p None.
+Proof.
+  unfold rename_params.
+  assert (G : forall acc, dget pkey_eqb (fold_left (fun acc kv => dset pkey_eqb acc (rename_key (fst kv)) (snd kv)) p acc) k
+                          = last_some (key_val k) p (dget pkey_eqb acc k)).
+  { induction p as [|kv r IH]; intros acc; simpl; [reflexivity|].
+    rewrite IH, dget_dset_pkey. unfold key_val. destruct (pkey_eqb k (rename_key (fst kv))); reflexivity. }
+  apply (G []).
+Qed.
+
+Lemma last_some_app {A B} (f : A -> option B) a b acc :
+  last_some f (a ++ b) acc = last_some f b (last_some f a acc).
+Proof. revert acc. induction a as [|x r IH]; intros acc; simpl; [reflexivity | apply IH]. Qed.
+Lemma last_some_acc {A B} (f : A -> option B) l acc :
+  last_some f l acc = match last_some f l None with Some y => Some y | None => acc end.
+Proof.
+  revert acc. induction l as [|x r IH]; intros acc; simpl; [reflexivity|].
+  rewrite IH. rewrite (IH (match f x with Some y => Some y | None => None end)).
+  destruct (last_some f r None); [reflexivity|]. destruct (f x); reflexivity.
+Qed.
+Lemma last_some_none {A B} (f : A -> option B) l :
+  last_some f l None = None -> forall x, In x l -> f x = None.
+Proof.
+  induction l as [|y r IH]; simpl; [intros _ x []|].
+  intros H x [->|Hx].
+  - rewrite last_some_acc in H. destruct (last_some f r None); [discriminate|]. destruct (f x); [discriminate | reflexivity].
+  - apply IH; [|exact Hx]. rewrite last_some_acc in H. destruct (last_some f r None); [discriminate | reflexivity].
+Qed.
+Lemma last_some_filter {A B} (f : A -> option B) (P : A -> bool) l :
+  (forall x, In x l -> f x <> None -> P x = true) ->
+  forall acc, last_some f (filter P l) acc = last_some f l acc.
+Proof.
+  induction l as [|x r IH]; intros H acc; simpl; [reflexivity|].
+  destruct (P x) eqn:E; simpl.
+  - apply IH. intros y Hy. apply H. right. exact Hy.
+  - destruct (f x) eqn:F.
+    + rewrite H in E; [discriminate | left; reflexivity | rewrite F; discriminate].
+    + apply IH. intros y Hy. apply H. right. exact Hy.
+Qed.
+
+Lemma include_main_wins sp dp k :
+  dget pkey_eqb (rename_params (merge_props sp dp)) k
+  = match dget pkey_eqb (rename_params dp) k with
+    | Some v => Some v
+    | None => dget pkey_eqb (rename_params sp) k
+    end.
+Proof.
+  rewrite !rename_params_last. unfold merge_props. rewrite last_some_app, last_some_acc.
+  destruct (last_some (key_val k) dp None) eqn:E; [reflexivity|].
+  apply last_some_filter. intros x Hx Fx.
+  destruct (pkey_mem (fst x) dp) eqn:M; [|reflexivity]. exfalso.
+  unfold pkey_mem in M. apply existsb_exists in M. destruct M as [y [Hy Ey]].
+  apply pkey_eqb_eq in Ey.
+  pose proof (last_some_none _ _ E y Hy) as N.
+  unfold key_val in N, Fx. rewrite <- Ey in N. destruct (pkey_eqb k (rename_key (fst x))); [discriminate | apply Fx; reflexivity].
+Qed.
+
+(* the merge before the repair did not have this property: main file `mass: 4` (after a first
+   include that wrote `m0: 3`), second include `mass: 9` -> the particle gets mass 3 *)
+Lemma include_old_alias_refuted :
+  exists sp dp k v,
+    dget pkey_eqb (rename_params dp) k = Some v /\
+    dget pkey_eqb (rename_params (dupdate pkey_eqb sp dp)) k <> Some v.
+Proof.
+  exists [(KMass, 9)], [(KM0, 3); (KMass, 4)], KMass, 4. split; [reflexivity|]. vm_compute. discriminate.
+Qed.
+
+(* ================================================================== 4b. decay lists after the cut *)
+Lemma pid_eqb0_eq a b : pid_eqb0 a b = true <-> a = b.
+Proof.
+  destruct a as [a1 a2], b as [b1 b2]. unfold pid_eqb0. simpl. rewrite andb_true_iff, !Z.eqb_eq.
+  split; [intros [-> ->]; reflexivity | intros H; injection H as -> ->; split; reflexivity].
+Qed.
+(* no phantom: the decay list of a particle of the loaded model = the decays of the kept chains
+   that start from it *)
+Lemma cut_decay_lists chs p d :
+  In d (decays_of_particle chs p) <-> fst d = p /\ exists oc, In oc chs /\ In d (chain_struct oc).
+Proof.
+  unfold decays_of_particle, all_sdecs. rewrite filter_In, in_flat_map, pid_eqb0_eq. tauto.
+Qed.
+
+(* the cut before the repair left a phantom: X1 -> [K2, D1 | forbidden K2 -> B C] *)
+Definition phantom_config : config :=
+  mkC [(3,[EList [DName 1;DName 2;DOpts [OPbreak true]]]);(1,[EList [DName 4;DName 5];EList [DName 6;DName 7]]);
+       (6,[EItem (DName 8);EItem (DName 5)]);(4,[EItem (DName 8);EItem (DName 7)])]
+      3 (Some [(KJ,0);(KP,(-1));(KMass,5300000)])
+      [(8, Some [(KJ,2);(KP,(-1));(KMass,1000000)]);(7, Some [(KJ,0);(KP,(-1));(KMass,500000)]);
+       (5, Some [(KJ,0);(KP,(-1));(KMass,140000)]);(2, Some [(KJ,0);(KP,(-1));(KMass,140000)])]
+      [(1, PVProps [(KJ,2);(KP,1);(KMass,3000000);(KWidth,200000)]);(6, PVProps [(KJ,2);(KP,(-1));(KMass,1400000);(KWidth,100000)]);
+       (4, PVList [CName 9]);(9, PVProps [(KJ,0);(KP,1);(KMass,1900000);(KWidth,100000)])] [].
+Lemma cut_old_phantom :
+  exists chs d, load_chains phantom_config = Some chs /\ In d (decay_table_old phantom_config)
+                /\ in_some_chain chs d = false.
+Proof.
+  eexists. exists ((1, 0), [(9, 0); (5, 0)]). split; [vm_compute; reflexivity|].
+  split; [vm_compute; tauto | vm_compute; reflexivity].
+Qed.
 
 (* ================================================================== 5. cross_combine = n-ary product *)
 Fixpoint nprod {A} (x : list (list (list A))) : list (list A) :=
